@@ -7,6 +7,11 @@ spec/Arbiter.tla (state machine + invariants), spec/ArbiterTrace.tla (trace vali
   3. code -> spec: for every (ptr, reqs, en) of every size up to nmax the real arbiter is driven
      and the recorded history validated by ArbiterTrace; plus long random histories up to 16 inputs.
   4. canaries: corrupted copies of real traces must be rejected.
+  5. the registers the arbiters (and the library's control logic) are built from - Reg, RegEn, RegRst, RegEnRst of
+     basic_rtl/registers.py: spec/Registers.tla (reset wins over enable, a disabled register holds, a register
+     without reset / enable term ignores that input); TLC checks its action properties for every kind x reset
+     value and must refute the canary property; every transition of every dumped graph is replayed on the real
+     class (Bits1 / Bits2 / Bits3 values) and long random histories are compared with NextOut of the graph.
 """
 import collections
 import copy
@@ -220,8 +225,124 @@ def _traces(res, nmax, nrand, randlen):
         res.note("canaries_rejected", len(can))
 
 
+REG_PROPS = ("ResetWins", "HoldsValue", "Loads", "IgnoresRst", "IgnoresEn")
+
+
+def _registers(res, quick):
+    """spec/Registers.tla: model check, replay every transition on the real register classes."""
+    from pymtl3 import DefaultPassGroup, mk_bits
+    import pymtl3.stdlib.basic_rtl.registers as regs
+    R = rng("c19-registers")
+    nedges = 0
+    from concurrent.futures import ThreadPoolExecutor
+    cfgs = []
+    for kind in ("Reg", "RegEn", "RegRst", "RegEnRst"):
+        has_rst = kind in ("RegRst", "RegEnRst")
+        for nbits in ((1, 2) if quick else (1, 2, 3)):
+            maxv = (1 << nbits) - 1
+            for rv in (sorted({0, 1, maxv}) if has_rst else (0,)):
+                cfgs.append((kind, nbits, maxv, rv))
+
+    def tlc_jobs(c):
+        kind, nbits, maxv, rv = c
+        base = "SPECIFICATION Spec\nCONSTANTS Kind = \"%s\"\n MaxV = %d\n RV = %d\n" % (kind, maxv, rv)
+        r = tlc.run("Registers", cfg_text=base + "INVARIANT TypeOK\n" + "".join("PROPERTY %s\n" % p for p in REG_PROPS),
+                    coverage=True, workers=2, light=True)
+        can = None
+        if kind == "RegEnRst" and nbits == 2 and rv == 1:
+            can = tlc.run("Registers", cfg_text=base + "PROPERTY CanaryNeverChanges\n", workers=2, light=True)
+        return r, can, tlc.dump_graph("Registers", cfg_text=base)
+
+    with ThreadPoolExecutor(max_workers=8) as ex:
+        jobs = list(ex.map(tlc_jobs, cfgs))
+    for (kind, nbits, maxv, rv), (r, c, (g, states, init, edges)) in zip(cfgs, jobs):
+        has_en, has_rst = kind in ("RegEn", "RegEnRst"), kind in ("RegRst", "RegEnRst")
+        if True:
+            if True:
+                res.add_tlc(r)
+                if r.violated:
+                    res.violation("model:registers:%s:%s" % (kind, r.violated), "Registers.tla violates %s for %s" % (r.violated, kind),
+                                  r.out[-2000:])
+                    continue
+                if not r.ok:
+                    raise MachineryError("TLC failed on Registers %s: %s\n%s" % (kind, r.errors, r.out[-1500:]))
+                if r.coverage.get("Cycle", (0, 0))[1] == 0:
+                    raise MachineryError("action Cycle never taken in Registers %s" % kind)
+                if c is not None and not c.violated:
+                    raise MachineryError("Registers.tla: the canary property CanaryNeverChanges was not refuted")
+                res.add_tlc(g)
+                T = mk_bits(nbits)
+
+                def fresh():
+                    top = getattr(regs, kind)(T, rv) if has_rst else getattr(regs, kind)(T)
+                    top.elaborate()
+                    top.apply(DefaultPassGroup())
+                    return top
+
+                def step(top, a):
+                    i, en, rst = a
+                    top.in_ @= i
+                    if has_en:
+                        top.en @= int(en)
+                    top.reset @= int(rst)
+                    top.sim_tick()
+                    return int(top.out)
+                # shortest paths from the power-up state of the implementation (out = 0, no history)
+                out = collections.defaultdict(list)
+                for (s_, d, name, args) in edges:
+                    out[s_].append((d, args))
+                s0 = next(i for i in init if states[i]["out"] == 0)
+                path = {s0: []}
+                q = collections.deque([s0])
+                while q:
+                    s_ = q.popleft()
+                    for (d, a) in out[s_]:
+                        if d not in path:
+                            path[d] = path[s_] + [a]
+                            q.append(d)
+                for s_ in path:
+                    for (d, a) in out[s_]:
+                        top = fresh()
+                        for pa in path[s_]:
+                            step(top, pa)
+                        if int(top.out) != states[s_]["out"]:
+                            raise MachineryError("register walk lost its state")
+                        got = step(top, a)
+                        nedges += 1
+                        res.add_evals()
+                        res.distinct(("reg-edge", kind, nbits, rv, states[s_]["out"], str(a)))
+                        if got != states[d]["out"]:
+                            res.violation("replay:registers:%s:rv=%d:out=%d,in=%d,en=%s,rst=%s" % ((kind, rv, states[s_]["out"]) + tuple(a)),
+                                          "%s( Bits%d%s ): from out=%d the cycle (in_=%d, en=%s, reset=%s) must give out=%d, the "
+                                          "implementation gives %d" % ((kind, nbits, ", reset_value=%d" % rv if has_rst else "",
+                                                                        states[s_]["out"]) + tuple(a) + (states[d]["out"], got)),
+                                          {"path": [list(map(str, p)) for p in path[s_]], "edge": list(map(str, a))})
+                # a long random history on one instance against the graph's transition function
+                nxt = {(states[s_]["out"], a): states[d]["out"] for s_ in path for (d, a) in out[s_]}
+                top = fresh()
+                cur = 0
+                for _ in range(200 if quick else 2000):
+                    a = (R.randrange(maxv + 1), R.random() < 0.6, R.random() < 0.15)
+                    exp = nxt[(cur, a)]
+                    got = step(top, a)
+                    res.add_evals()
+                    if got != exp:
+                        res.violation("trace:registers:%s:rv=%d" % (kind, rv),
+                                      "%s( Bits%d ): random history: from out=%d cycle %s gives %d, the specification %d"
+                                      % (kind, nbits, cur, a, got, exp))
+                        break
+                    cur = exp
+    res.count("register_transitions_replayed", nedges)
+    # replay canary: a register model with enable and reset swapped must disagree with the graph somewhere
+    bad = [(o, a) for (o, a), v in nxt.items() if (1 if a[1] and False else 0) or
+           ((rv if a[1] else (a[0] if a[2] else o)) != v)]
+    if not bad:
+        raise MachineryError("register canary: the swapped-input model agrees with the specification graph")
+
+
 def run(res, tier):
     quick = tier == "quick"
+    _registers(res, quick)
     _model_check(res, 5 if quick else 6)
     _graph_walk(res, 3 if quick else 4)
     _traces(res, 6 if quick else 8, 40 if quick else 400, 300 if quick else 1000)
